@@ -114,4 +114,59 @@ example : Gen.terminate { inTesting := false, flags := 0 } 0 = .panic ∧
           Gen.terminate { inTesting := true, flags := 2 ^ 21 } 1 = .exit (-3) ∧
           Gen.terminate { inTesting := true, flags := 2 ^ 21 + 2 ^ 20 } 1 = .continue := by decide
 
+/-! ### programs: a sequence of calls on one logger -/
+
+/-- A program of calls (severities) on a logger of level `L`: the records emitted, in order, and
+    how the program ends. A terminating call ends it after its own record. -/
+def runProgram (g : Globals) (L : Int) : List Int → List Int × Outcome
+  | [] => ([], .continue)
+  | s :: rest =>
+    if Gen.enabled g L s then
+      if Gen.terminate g s = .continue then ((s :: (runProgram g L rest).1), (runProgram g L rest).2)
+      else ([s], Gen.terminate g s)
+    else runProgram g L rest
+
+/-- (10) A program without Panic / Fatal calls runs to its end, whatever the flags, and emits
+    exactly its admitted calls, in order. -/
+theorem program_runs_through (g : Globals) (L : Int) (sevs : List Int)
+    (h : ∀ s ∈ sevs, s ≠ Lv.panic ∧ s ≠ Lv.fatal) :
+    runProgram g L sevs = (sevs.filter (fun s => Gen.enabled g L s), .continue) := by
+  induction sevs with
+  | nil => rfl
+  | cons s rest ih =>
+    have hs := h s (by simp)
+    have ih' := ih (fun x hx => h x (by simp [hx]))
+    have ht : Gen.terminate g s = .continue := others_never_terminate g s hs.1 hs.2
+    by_cases ha : Gen.enabled g L s = true
+    · simp [runProgram, ha, ht, ih']
+    · have ha' : Gen.enabled g L s = false := by simpa using ha
+      simp [runProgram, ha', ih']
+
+/-- (11) Record first, for whole programs: when a program is ended by a call, that call's record
+    is the last one emitted — it was written before the process panicked or exited — and nothing
+    after it is emitted. -/
+theorem terminating_record_is_last (g : Globals) (L : Int) (sevs : List Int)
+    (h : (runProgram g L sevs).2 ≠ .continue) :
+    ∃ s, (runProgram g L sevs).1.getLast? = some s ∧ Gen.enabled g L s = true ∧
+      Gen.terminate g s = (runProgram g L sevs).2 := by
+  induction sevs with
+  | nil => simp [runProgram] at h
+  | cons s rest ih =>
+    by_cases ha : Gen.enabled g L s = true
+    · by_cases ht : Gen.terminate g s = .continue
+      · simp only [runProgram, ha, ht, if_true] at h ⊢
+        obtain ⟨s', hl, he, hx⟩ := ih h
+        refine ⟨s', ?_, he, hx⟩
+        cases hr : (runProgram g L rest).1 with
+        | nil => simp [hr] at hl
+        | cons a as => simpa [hr, List.getLast?_cons_cons] using hl
+      · exact ⟨s, by simp [runProgram, ha, ht], ha, by simp [runProgram, ha, ht]⟩
+    · have ha' : Gen.enabled g L s = false := by simpa using ha
+      simp only [runProgram, ha'] at h ⊢
+      simpa using ih h
+
+-- non-vacuity: a production Info logger; Info, Debug (not admitted), Fatal, Info: the Fatal record is
+-- written, then the process exits with 253 (-3), the last call is never reached
+example : runProgram { inTesting := false, flags := 0 } 4 [4, 5, 1, 4] = ([4, 1], .exit (-3)) := by decide
+
 end Logg.Props.C12
